@@ -37,6 +37,11 @@ C["C13"] = dict(
     text="established phase: for each publicly constructible session kind (client owned by a SessionManager, server owned by a Listener, server from Server()) every single event of the grammar (12 types x 4 versions x magic x 14 length-field values x 9 payloads), all pairs and selected/all triples of a 13-event reduced set, each under every splitting with <=1 (quick) / <=2 (thorough) cut points, delivered through the real connEventHandler.onReadReady/commitRead on a socketpair and the real handleEvents and handlers, posted lambdas included; oracles: no panic, invalid header closes the session with an error, effect identical for every splitting. Handshake phase: real newSession (server role; client role with memfd) in child processes against a scripted raw peer playing every handshake event / metadata body / length combination; oracle: newSession returns, the process survives",
     note="handlers and lambdas run on the harness goroutine under recover; handshake cases run in child processes and a dead child is attributed to the case it was running; shared-memory contents are not part of the input alphabet (only control-connection bytes)",
     technique="explicit enumeration of an event grammar and of all splittings up to a cut bound on the real parsing code (fault/input enumeration with a differential unsplit-vs-split oracle)", design="DESIGN.md section 4 C13")
+TECH_B = "stateless model checking of the implementation at session level: two real sessions over a real socketpair (real handshake, mmap, epoll registration, connEventHandler) under the controlled scheduler with virtual time; exhaustive DFS over all schedules within a deviation (delay) bound"
+NOTE_B = "deviation bound: every non-default scheduling choice (preemption, or another than the round-robin successor when the running thread blocks) and every non-default environment answer costs 1; plain shared-memory accesses are not scheduling points at this level (atomics, locks, channel operations, syscall waits are); only the epoll loop goroutine body is replaced (a scheduler thread per process that calls the real epoll_wait, handleEvent and runLambda); SC interleavings"
+C["C20"] = dict(
+    text="7 scenarios (2-3 messages through shared memory and socket fallback into a stream whose callbacks are installed in OnNewStream; OnData consuming all / 3 bytes per call / closing the stream; peer close after the last flush; local Close from another thread at any point): every schedule of client, both event loops, send loop and the callback goroutines with <= 2 (quick) / <= 3 (thorough) deviations; oracles: OnData never re-entered, consumed bytes are a prefix of the flushed bytes, and at quiescence with no close observed everything flushed was offered",
+    note=NOTE_B, technique=TECH_B, design="DESIGN.md section 4 C20")
 NA = {}
 m = {
     "version": 1,
